@@ -15,6 +15,7 @@ import Qco.Bits.Script
 import Qco.Glue.Cli
 import Qco.Op.Comp
 import Qco.DType.Timestamps
+import Qco.Driver.FloatFns
 namespace Qco.Driver
 open Qco
 
@@ -571,6 +572,7 @@ def answer (line : String) : String :=
   | "fields" :: args => cmdFields args
   | "bodywrite" :: args => cmdBodyWrite args
   | "numdec" :: args => cmdNumDec args
+  | "floatfns" :: args => cmdFloatFns gbFloat args
   | "ts" :: args => cmdTs args
   | "bwords" :: args => cmdBits "bwords" args
   | "bread" :: args => cmdBits "bread" args
